@@ -52,6 +52,7 @@ type Engine struct {
 	pureIfaceMethods map[string]bool
 	escFields map[string]int
 	escCells  map[string]bool
+	escOwners map[string][][2]int // cell region -> (field ordinal k, struct type tag) of the fields stored in it
 }
 
 // WriteSet: region key -> true if possibly written at non-fresh refs (wholesale), false if only on objects allocated by the callee.
